@@ -35,7 +35,7 @@ def params_at(trans, epoch):
 def formula(x, y, z, p):
     """t + (1 + sc*1e-6) * R * x,  R = [[1, rz, -ry], [-rz, 1, rx], [ry, -rx, 1]], rotations arcsec -> rad"""
     tx, ty, tz, sc, rx, ry, rz = p
-    x, y, z = mp.mpf(x), mp.mpf(y), mp.mpf(z)
+    x, y, z = (mp.mpf(v.item() if hasattr(v, 'item') else v) for v in (x, y, z))
     s = 1 + sc / 10 ** 6
     rx, ry, rz = rx * AS2RAD, ry * AS2RAD, rz * AS2RAD
     return (tx + s * (x + rz * y - ry * z),
